@@ -38,9 +38,27 @@ def declared_devices(script: str) -> dict:
 
 def classify(line: str, reason: str, devices: dict) -> tuple[str, str]:
     """-> ("allowed", why) or ("dropped", kind)"""
-    if reason in ("import", "target", "target-inline", "print", "constant-expression"):
-        return "allowed", reason
     text = line.strip()
+    if reason in ("import", "target", "target-inline", "print", "constant-expression"):
+        # the hook's own reason is only believed when the line really is of that kind
+        try:
+            body = ast.parse(text).body
+        except SyntaxError:
+            body = None
+        st0 = body[0] if body and len(body) == 1 else None
+        call = st0.value if isinstance(st0, ast.Expr) and isinstance(st0.value, ast.Call) and isinstance(st0.value.func, ast.Name) else None
+        genuine = (
+            (reason == "import" and isinstance(st0, (ast.Import, ast.ImportFrom)))
+            or (reason in ("target", "target-inline") and (isinstance(st0, (ast.Import, ast.ImportFrom)) or (call is not None and call.func.id == "target")
+                                                          or (isinstance(st0, ast.Assign) and isinstance(st0.value, ast.Call) and getattr(st0.value.func, "id", None) == "target")))
+            or (reason == "print" and call is not None and call.func.id == "print")
+            or (reason == "constant-expression" and isinstance(st0, ast.Expr) and not any(isinstance(n, (ast.Name, ast.Call, ast.Attribute)) for n in ast.walk(st0)))
+            or body == []
+        )
+        if genuine:
+            return "allowed", reason
+        if body is None:
+            return "dropped", f"mislabelled-{reason}:unparseable-fragment"
     m = HEADER_RE.match(text)
     if m and text.endswith(":"):
         if m.group(1) == "for":
